@@ -237,6 +237,14 @@ func (g *Governance) Plan(c *Ctx) []hist.TxSpec {
 			} else if (store == "propPassed" || store == "propFailed") && !p.triedW {
 				// decided, not finalised yet
 				p.triedW = true
+				if store == "propPassed" && p.plan == "config" {
+					// somebody submits the finalisation as an ordinary transaction: every node's mempool
+					// check sees it before the block does
+					u := us[2%len(us)]
+					sp := BuildFee(c, "PROPOSAL_FINALIZE", &govact.FinalizeProposal{ProposalID: governance.ProposalID(p.id), ValidatorAddress: u.Addr}, txb.Fee("1000000000", 400000), "finalisation of a passed configuration proposal submitted as a transaction", u)
+					sp.Meta = map[string]string{"proposal": p.id}
+					out = append(out, sp)
+				}
 				out = append(out, g.withdrawFunds(c, p, us[4], us[4], "11", "withdraw from a decided proposal before finalisation (must fail)"))
 			}
 		case "cancel":
